@@ -297,6 +297,37 @@ class Fn:
         self.cleanup = {b["id"] for b in self.blocks if b.get("cleanup")}
         self.succ = {}
         self.usucc = {}
+        # tiny constant propagation for single-assignment bool/int temporaries (cfg!(..), !cfg!(..))
+        ndef = defaultdict(int)
+        cdef = {}
+        for b in self.blocks:
+            for st in b["stmts"]:
+                if st["k"] == "assign":
+                    l = st["lhs"]["l"]
+                    ndef[l] += 1
+                    if not st["lhs"]["p"]:
+                        cdef[l] = st["rv"]
+            if b["term"]["k"] == "call":
+                ndef[b["term"]["dest"]["l"]] += 1
+
+        def const_of(op, depth=0):
+            c = op.get("const")
+            if c is not None:
+                if c.get("kind") == "bool":
+                    return 1 if c.get("value") else 0
+                if c.get("kind") == "int" and isinstance(c.get("value"), int):
+                    return c["value"]
+                return None
+            pl = op.get("copy") or op.get("move")
+            if pl is None or pl["p"] or depth > 4 or ndef.get(pl["l"]) != 1 or pl["l"] not in cdef or 1 <= pl["l"] <= d["arg_count"]:
+                return None
+            rv = cdef[pl["l"]]
+            if rv["k"] == "use":
+                return const_of(rv["a"], depth + 1)
+            if rv["k"] == "un" and rv["op"] == "Not" and rv.get("ty") == "bool":
+                v = const_of(rv["a"], depth + 1)
+                return None if v is None else (0 if v else 1)
+            return None
         for b in self.blocks:
             t = b["term"]
             k = t["k"]
@@ -305,6 +336,11 @@ class Fn:
                 s = [t["target"]]
             elif k == "switch":
                 s = [a["target"] for a in t["arms"]] + [t["otherwise"]]
+                v = const_of(t["discr"])
+                if v is not None:
+                    # constant scrutinee (cfg!(..) etc.): only the matching edge is feasible
+                    hit = [a["target"] for a in t["arms"] if a["value"] == v]
+                    s = hit[:1] if hit else [t["otherwise"]]
             elif k in ("drop", "assert"):
                 s = [t["target"]]
             elif k == "call":
